@@ -34,10 +34,23 @@ var clock int64 = 1 << 20
 
 func init() {
 	// one strictly increasing logical clock for every store of the process
-	localstore.VerifSetNow(func() int64 { return atomic.AddInt64(&clock, 1) })
+	localstore.VerifSetNow(func() int64 {
+		// granularity 1: strictly increasing; g > 1: only every g-th reading advances the
+		// clock, so that successive operations see the same time (a coarse timer)
+		if g := atomic.LoadInt64(&granularity); g > 1 && atomic.AddInt64(&readings, 1)%g != 0 {
+			return atomic.LoadInt64(&clock)
+		}
+		return atomic.AddInt64(&clock, 1)
+	})
 	// collections run when the monitor says so, not in a background goroutine
 	verifhook.SetFlag("localstore.gcworker.off", true)
 }
+
+var granularity, readings int64
+
+// SetClockGranularity makes the logical clock of all stores advance only on every g-th
+// reading (g <= 1: on every reading, the default).
+func SetClockGranularity(g int64) { atomic.StoreInt64(&granularity, g) }
 
 var blockCache = map[int][]byte{}
 
